@@ -87,6 +87,12 @@ def t_ord_cmp(ctx, args, callee):
     def mk(lt, eq):
         return EnumV(z3.simplify(If(lt, BitVecVal(-1, 64), If(eq, BitVecVal(0, 64), BitVecVal(1, 64)))), {}, 'Ordering')
     if isinstance(a, NumStr) and isinstance(b, NumStr) and not (a.pre or a.suf or b.pre or b.suf):
+        if a.signed or b.signed:
+            # "-<digits>" sorts before every digit string ('-' = 0x2d < '0'); two negatives by their digit strings
+            na, nb = a.bv < 0, b.bv < 0
+            ma, mb = If(na, -a.bv, a.bv), If(nb, -b.bv, b.bv)
+            lt = If(And(na, Not(nb)), BoolVal(True), If(And(Not(na), nb), BoolVal(False), lex_lt_num(ma, mb)))
+            return mk(lt, a.bv == b.bv)
         return mk(lex_lt_num(a.bv, b.bv), a.bv == b.bv)
     if isinstance(a, DateStr) and isinstance(b, DateStr):
         # fixed-width "YYYY-MM-DD HH:MM:SS": text order = chronological order
@@ -121,6 +127,9 @@ def key_exprs(prog, kinds):
     out.append(('year(modified)', E.mk_expr(prog, function=some(fn('Year')), left=some(BoxV(E.expr_field(prog, 'Modified'))), args=some(Seq([]))), 'num'))
     out.append(('length(name)', E.mk_expr(prog, function=some(fn('Length')), left=some(BoxV(E.expr_field(prog, 'Name'))), args=some(Seq([]))), 'num'))
     out.append(('upper(name)', E.mk_expr(prog, function=some(fn('Upper')), left=some(BoxV(E.expr_field(prog, 'Name'))), args=some(Seq([]))), 'text'))
+    # an integer-valued expression that goes negative: size - 100
+    out.append(('size - 100', E.mk_expr(prog, left=some(BoxV(E.expr_field(prog, 'Size'))), arithmetic_op=some(ao('Subtract')), right=some(BoxV(E.expr_value(prog, '100')))), 'snum'))
+    out.append(('100 - size', E.mk_expr(prog, left=some(BoxV(E.expr_value(prog, '100'))), arithmetic_op=some(ao('Subtract')), right=some(BoxV(E.expr_field(prog, 'Size')))), 'snum'))
     return out
 
 
@@ -129,6 +138,11 @@ def values_for(ctx, kind, tag):
         a = ctx.fresh_bv('a' + tag, 64); b = ctx.fresh_bv('b' + tag, 64)
         ctx.assume(ULT(a, BitVecVal(1000, 64))); ctx.assume(ULT(b, BitVecVal(1000, 64)))
         return NumStr(a, False), NumStr(b, False), ULT(a, b), a == b, (a, b)
+    if kind == 'snum':
+        a = ctx.fresh_bv('a' + tag, 64); b = ctx.fresh_bv('b' + tag, 64)
+        for v in (a, b):
+            ctx.assume(And(v >= BitVecVal(-1000, 64), v < BitVecVal(1000, 64)))
+        return NumStr(a, True), NumStr(b, True), a < b, a == b, (a, b)
     if kind == 'date':
         a = ctx.fresh_bv('ta' + tag, 64); b = ctx.fresh_bv('tb' + tag, 64)
         return DateStr(a), DateStr(b), a < b, a == b, (a, b)
@@ -242,7 +256,8 @@ def fam_cmp(sess):
             m = ctx.model(d != ref)
             avals, bvals = [], []
             for (k, sy) in zip(combo, syms):
-                x = m.eval(sy[0], model_completion=True).as_long(); y = m.eval(sy[1], model_completion=True).as_long()
+                x = m.eval(sy[0], model_completion=True); y = m.eval(sy[1], model_completion=True)
+                x, y = (x.as_signed_long(), y.as_signed_long()) if k[2] == 'snum' else (x.as_long(), y.as_long())
                 if k[2] == 'text':
                     x, y = TEXT_VALUES[x], TEXT_VALUES[y]
                 avals.append(render_val(k[2], x)); bvals.append(render_val(k[2], y))
@@ -410,6 +425,90 @@ def comparator_differs(ref, keys_txt, dirs_txt):
         return True
 
 
+KEY_EXPRS = ['size*2', 'size * 2', 'size - 100', 'size + 100', '(size + 1) * 2', 'size % 10', '1 - size', 'length(name) + 1', 'size / 2 + 1', '-size']
+
+
+def fam_clause_keys(sess):
+    """an ORDER BY key is an expression like any other: the real lexer + the real Parser::parse turn `order by E` into the
+    same expression tree as `select E`, whether or not the query has a WHERE clause (the lexer's operator recognition depends on
+    where in the query it is)"""
+    from drivers import c11, parsecore as P
+    from mirsym.models_std import Seq, generic_eq, table_str
+    from mirsym.core import none
+    prog = sess.prog
+    fam = 'clause_keys'
+    ov = c11.lexer_models() + [(r'^UserDirs::new$|^directories::UserDirs::new$', lambda ctx, a, c: none(), 'stub:UserDirs::new(None)')]
+    ex = sess.executor(ov, unwind=400, maxsteps=3000000)
+    parse = prog.find('Parser', 'parse')
+    QF = E.struct_fields(prog, 'Query')
+    sess.bounds[fam] = {'key expressions': KEY_EXPRS, 'clauses': 'with and without WHERE (symbolic choice), key alone / followed by desc / by a second key'}
+    for e in KEY_EXPRS:
+        box = {'paths': 0}
+
+        def run(ctx, e=e):
+            with_where = ctx.decide(ctx.fresh_bool('query_has_where'))
+            tail = ctx.concretize(ctx.fresh_bv('tail', 2), range(3))
+            q1 = 'name from .' + (' where size > 0' if with_where else '') + ' order by ' + e + ['', ' desc', ', name'][tail]
+            q2 = e + ' from .'
+            out = []
+            for q in (q1, q2):
+                parser = P.mk_parser(prog, [], roots_parsed=False, where_parsed=False)
+                out.append(ctx.call_fn(parse, [Ref(Cell(parser)), Seq([Str(q)]), BoolVal(False)]))
+            return q1, q2, out
+
+        def on_path(ctx, out, e=e):
+            nm = '%s `%s`' % (fam, e)
+            box['paths'] += 1
+            if out[0] != 'ret':
+                if not box.get('bad'):
+                    box['bad'] = True; sess.inconclusive(nm, str(out)[:300], fam)
+                return
+            q1, q2, (r1, r2) = out[1]
+            bad = None
+            if conc(r2.d) != 0:
+                return                      # the expression is not accepted in the select list either: not a key expression
+            if conc(r1.d) != 0:
+                bad = 'rejected: %r' % (r1.p[1][0],)
+            else:
+                k1 = r1.p[0][0].f[QF.index('ordering_fields')]
+                k1 = ctx.deref(k1) if not hasattr(k1, 'cell') else k1.cell.v
+                keys = k1.items
+                f2 = r2.p[0][0].f[QF.index('fields')].items
+                if not keys:
+                    bad = 'no ordering key'
+                else:
+                    try:
+                        same = generic_eq(ctx, keys[0].v, f2[0].v)
+                    except Unmodelled as ex_:
+                        box['bad'] = True; sess.inconclusive(nm, 'cannot compare: %s' % ex_, fam); return
+                    if ctx.check(Not(same)) != z3.unsat:
+                        bad = 'the key is the expression %s' % P.expr_to_text(ctx, prog, keys[0].v)
+                    elif len(keys) != (2 if q1.endswith(', name') else 1):
+                        bad = '%d keys' % len(keys)
+            if bad and not box.get('viol'):
+                box['viol'] = True
+                sess.violated(nm, 'clause_keys/' + ('with-where' if ' where ' in q1 else 'no-where'), '`%s`: %s' % (q1, bad), {'query': q1}, cli_replay_key(e, ' where ' in q1), fam)
+        ex.explore(run, on_path)
+        if not box.get('viol') and not box.get('bad'):
+            sess.discharged('%s `%s`: the ORDER BY key is the expression' % (fam, e), family=fam, queries=box['paths'])
+
+
+def cli_replay_key(e, with_where):
+    def rep():
+        exe = common.native_binary()
+        tree = {'f5': {'size': 5}, 'f50': {'size': 50}, 'f150': {'size': 150}, 'f1000': {'size': 1000}, 'f99': {'size': 99}, 'g7': {'size': 7}}
+        w = ' where size > 0' if with_where else ''
+        r = common.run_cli(exe, ['%s, name from .%s order by %s' % (e, w, e)], tree)
+        rows = [l.split('\t') for l in r['stdout'].split('\n')[:-1]]
+        try:
+            vals = [float(x[0]) for x in rows]
+        except ValueError:
+            return True, '`order by %s`%s: status %s, rows %r %s' % (e, w, r['status'], rows[:3], r['stderr'][:80])
+        bad = r['status'] != 0 or len(rows) != 6 or vals != sorted(vals)
+        return bad, '`... %s order by %s`: status %s, key values in output order %r %s' % (w, e, r['status'], vals, r['stderr'][:80])
+    return rep
+
+
 def main(sess):
     sess.engines = ['mirsym (MIR symbolic execution) + z3 %s' % z3.get_version_string()]
     sess.assumptions += [
@@ -420,6 +519,10 @@ def main(sess):
         'permutation and sortedness of the ordered buffer: TopN (C06); row values themselves: C04 / C15',
     ]
     only = getattr(sess, 'only', None)
-    for name, f in (('cmp', fam_cmp), ('parse_order_by', fam_parse_order_by)):
+    for name, f in (('cmp', fam_cmp), ('parse_order_by', fam_parse_order_by), ('clause_keys', fam_clause_keys)):
         if not only or name in only:
             f(sess)
+
+    if not only or 'e2e' in only:
+        from drivers import e2e
+        e2e.family_for(sess, 'C05')
